@@ -68,4 +68,40 @@ def handleArgsStreaming (call : CallInfo) : CallInfo := call
 /-- … and before: `handle(ctx, Spec{}, nil, r)` -/
 def handleArgsStreamingPinned (_ : CallInfo) : CallInfo := { procedure := [], streamType := 0, header := [] }
 
+/-! ### a chain of interceptors, some of which panic themselves, with recover frames among them -/
+
+/-- one layer of the handler's interceptor chain, as far as panics are concerned -/
+inductive Layer where
+  | pass                        -- an interceptor that calls `next` and returns what it returned
+  | panicBefore (v : PanicVal)  -- ... that panics before calling `next`
+  | panicAfter (v : PanicVal)   -- ... that calls `next` and panics once `next` has returned
+  | recover (id : Nat)          -- a `WithRecover` frame whose recovery function is number `id`
+  deriving DecidableEq, Repr
+
+/-- Runs the chain outermost layer first around `body` (the handler's own outcome): the outcome
+    that leaves the outermost layer, plus the recovery calls `(frame, value)` in the order they
+    happen. A panic travelling up through a layer that is not a recover frame is untouched (Go
+    unwinds the frame); `panicAfter` only gets to panic when `next` returned. -/
+def runChain {α : Type} (onRecovered : Nat → PanicVal → α) :
+    List Layer → Outcome α → Outcome α × List (Nat × PanicVal)
+  | [], body => (body, [])
+  | .pass :: rest, body => runChain onRecovered rest body
+  | .panicBefore v :: _, _ => (.panic v, [])
+  | .panicAfter v :: rest, body =>
+    match runChain onRecovered rest body with
+    | (.ret _, calls) => (.panic v, calls)
+    | (.panic w, calls) => (.panic w, calls)
+  | .recover id :: rest, body =>
+    let inner := runChain onRecovered rest body
+    let r := recoverFrame inner.1 (onRecovered id)
+    (r.outcome, inner.2 ++ r.handleCalls.map (fun v => (id, v)))
+
+def Layer.isRecover : Layer → Bool
+  | .recover _ => true
+  | _ => false
+
+def Layer.isPass : Layer → Bool
+  | .pass => true
+  | _ => false
+
 end ConnectModel
